@@ -138,6 +138,8 @@ def r1(ctx):
     for fn, n_want in (("multiply_backoff", 1), ("reset_backoff", 1)):
         tgt = ctx.find(name=fn, self_adt=STATE, trait="")
         cs = [(d, bi, sp) for d, bi, sp in common.lib_callers(ctx.facts, tgt)]
+        # (a call from a private helper no rule names is a call from the helper's own call site(s))
+        cs = [(o, bi, sp) for d, bi, sp in cs for o in (common.effective_owners(ctx.facts, d) if "with_reconnect_backoff" not in d else [d])]
         ctx.check("ReconnectionState::%s" % fn, len(cs) == n_want and all("with_reconnect_backoff" in d for d, _, _ in cs),
                   "called from exactly one site, inside with_reconnect_backoff", sites=[sp for _, _, sp in cs],
                   got=[mir.short(whomay.owner_fn(d)) for d, _, _ in cs], key="callers")
